@@ -362,8 +362,16 @@ class Gen:
             v = r.below(min(hi, 50) + 1)
             if lo < 0 and r.chance(1, 4):
                 v = -v
-        elif c < 7:
+        elif c < 6:
             v = r.pick([lo, hi, lo + 1, hi - 1, 0, 1])
+        elif c < 8:
+            # neighbourhood of a power of two (word boundaries of the code generator)
+            k = r.pick([7, 8, 15, 16, 31, 32, 63, 64, 127])
+            v = (1 << k) + r.pick([-1, 0, 1, r.below(1 << min(k, 20))])
+            if lo < 0 and r.chance(1, 3):
+                v = -v
+            if not (lo <= v <= hi):
+                v = r.pick([lo, hi])
         else:
             v = lo + r.below(hi - lo + 1)
         return ('lit', t, v)
